@@ -400,7 +400,10 @@ class Check:
         self.assumptions = []
         self.proof = None
         with open(os.path.join(VERIF, "known_findings.json")) as f:
-            self.known = [k for k in json.load(f)["findings"] if k["property"] == pid]
+            # (an entry that lacks a required field - e.g. a fragment left by a bad merge - suppresses nothing and must not
+            # stop the checks; tools/gen_design_tables.py / tools/merge_branch.sh reject such a file)
+            self.known = [k for k in json.load(f)["findings"]
+                          if k.get("property") == pid and all(x in k for x in ("id", "status", "match"))]
 
     # -- proofs
     def run_proofs(self):
